@@ -322,3 +322,7 @@ H_SENDSNAP = {"fn": "vh_send_snapshot", "what": "sendLatestSnapshot on an arbitr
               "bounds": "N=2, <=2 snapshots", "covers": ["snap.success", "snap.rejected", "snap.rpc-error", "snap.stale-term", "snap.not-sent"]}
 for p in ["C12", "C05", "C01", "C11", "C09"]:
     CHECKS[p]["harnesses"].append(H_SENDSNAP)
+
+H_HEARTBEAT = {"fn": "vh_heartbeat", "what": "one round of the heartbeat loop (forced by notifyCh) with an arbitrary follower answer or RPC error", "bounds": "N=2", "covers": ["heartbeat.ack", "heartbeat.nack", "heartbeat.rpc-error"]}
+for p in ["C09", "C13", "C01", "C05"]:
+    CHECKS[p]["harnesses"].append(H_HEARTBEAT)
